@@ -29,7 +29,10 @@ CONSTANTS Ids,        \* identifiers usable as explicit entity ids (integers; th
           MaxQ,       \* bound on postponed callbacks (guard)
           Acts,       \* enabled action families: subset of {"create","create2","add","remove","delete","process","clear","toggle","probe","proc","fault","ghost","inframe","probekill"}
           ReplaceBeforeIndex, AutoIdSkipsUsed, ImmediateDeleteNotifies, ClearKeepsSelf,
-          RelayOnlyDeclared, CreateNotifiesReplaced, ClearDeadGuards, WalkVisitsOnce
+          RelayOnlyDeclared, CreateNotifiesReplaced, ClearDeadGuards, WalkVisitsOnce,
+          CreateAttachesInTurn   \* (D29) create_entity(x, y) with x and y of one type: x is attached (on_add) and then
+                                 \* replaced by y (on_remove, unregistered), as two add_component calls would do.
+                                 \* FALSE = as implemented at 05622c8: x hears on_remove BEFORE on_add and stays registered
 
 VARIABLES rows, index, dead, nextAuto,
           enabled, queue,      \* queue: postponed callbacks <<cb, who, ent, first>> ; first = starts a new operation batch
@@ -159,16 +162,32 @@ CreateTables(w, e, cs) ==
              w1 == IF CreateNotifiesReplaced /\ t \in DOMAIN Row(w.rows, e) THEN Detach(w, e, t) ELSE w
          IN CreateTables(Tables(w1, e, c), e, Tail(cs))
 AnnounceAll(w, e, cs) == IF cs = <<>> THEN w ELSE AnnounceAll(Announce(w, e, Head(cs)), e, Tail(cs))
+\* several components of one type in one call ("createdup" family): all but the last of each type are attached and
+\* replaced in turn, the last ones go through the batch path above
+Dup(cs) == \E i, j \in 1..Len(cs) : i # j /\ TypeOf[cs[i]] = TypeOf[cs[j]]
+Later(cs, i) == \E j \in (i + 1)..Len(cs) : TypeOf[cs[j]] = TypeOf[cs[i]]
+RECURSIVE KeptFrom(_, _), AttachReplaced(_, _, _, _)
+KeptFrom(cs, i) == IF i > Len(cs) THEN <<>> ELSE (IF Later(cs, i) THEN <<>> ELSE <<cs[i]>>) \o KeptFrom(cs, i + 1)
+AttachReplaced(w, e, cs, i) ==
+    IF i > Len(cs) THEN w
+    ELSE IF ~Later(cs, i) THEN AttachReplaced(w, e, cs, i + 1)
+    ELSE LET c == cs[i]  t == TypeOf[c]
+             w1 == IF t \in DOMAIN Row(w.rows, e) THEN Detach(w, e, t) ELSE w
+         IN AttachReplaced(Announce(Tables(w1, e, c), e, c), e, cs, i + 1)
 
 CreateEntity(id, cs) ==
     /\ "create" \in Acts /\ (Len(cs) = 2 => "create2" \in Acts)
     /\ \A i \in 1..Len(cs) : Free(cs[i])
-    /\ \A i, j \in 1..Len(cs) : i # j => TypeOf[cs[i]] # TypeOf[cs[j]]
-    /\ QRoom(3)
-    /\ LET e == IF id = NoEnt THEN PickAuto(nextAuto) ELSE id IN
+    /\ \A i, j \in 1..Len(cs) : i # j => cs[i] # cs[j]
+    /\ (Dup(cs) => "createdup" \in Acts)
+    /\ QRoom(IF Dup(cs) THEN 4 ELSE 3)
+    /\ LET e == IF id = NoEnt THEN PickAuto(nextAuto) ELSE id
+           turn == Dup(cs) /\ CreateAttachesInTurn
+           ks == IF turn THEN KeptFrom(cs, 1) ELSE cs
+           wa == IF turn THEN AttachReplaced(W0, e, cs, 1) ELSE W0 IN
        /\ (id = NoEnt => e <= MaxAuto)
        /\ nextAuto' = IF id = NoEnt THEN e + 1 ELSE nextAuto
-       /\ Commit(AnnounceAll(CreateTables(W0, e, cs), e, cs))
+       /\ Commit(AnnounceAll(CreateTables(wa, e, ks), e, ks))
        /\ ret' = <<"id", e, "-">>
        /\ bad' = IF bad = "none" /\ id = NoEnt /\ e \in DOMAIN rows THEN "auto_id_in_use" ELSE bad
     /\ PK /\ UNCHANGED <<enabled, selfReg, procs, pprio, pworld>>
